@@ -245,7 +245,7 @@ func c17oracle(pre transfer.VerifSendSnapshot, g c17ghost, ev int, o c17out, c c
 
 func runC17(cfg config) *hx.Report {
 	rep := hx.NewReport("C17")
-	rep.Rule = "reachable transitions of a real sendFileState under all well-formed schedules (take/finish/try-end, plan arrival, verdict) for every total<=T, bitmap, force-send-from, verified chunk and verdict; plus random long histories (total<=200, up to 8 outstanding takes). Distinct = distinct (pre-state, event, output, post-state); non-trivial = the transition changes the state or emits a chunk/end"
+	rep.Rule = "reachable transitions of a real sendFileState under all well-formed schedules (take/finish/try-end, plan arrival, verdict) for every total<=T, bitmap, force-send-from, verified chunk and verdict; plus random long histories (total<=31, up to 8 outstanding takes; bitmaps uniform, full, or a complete prefix with holes and out-of-order chunks behind it). Distinct = distinct (pre-state, event, output, post-state); non-trivial = the transition changes the state or emits a chunk/end"
 	cf := &hx.CasesFile{Dir: cfg.out, Name: "C17", Module: "C17", Imports: []string{"Model.Dispatch", "Corr.C17"}, PerShard: 1500}
 	maxTotal := uint32(3)
 	if cfg.tier == "thorough" {
@@ -363,7 +363,7 @@ func runC17(cfg config) *hx.Report {
 
 	// random long histories
 	rng := hx.NewRand(cfg.seed)
-	nHist := 150
+	nHist := 400
 	if cfg.tier == "thorough" {
 		nHist = 1500
 	}
@@ -373,8 +373,26 @@ func runC17(cfg config) *hx.Report {
 			total = uint32(1 + rng.Intn(31))
 		}
 		c := c17cfg{total: total, bitmap: uint32(rng.U64()) & (1<<total - 1), hasPlan: rng.Intn(5) > 0}
-		if rng.Intn(4) == 0 {
+		switch rng.Intn(6) {
+		case 0:
 			c.bitmap = 1<<total - 1
+		case 1, 2, 3:
+			// what a real interrupted fetch leaves: a long complete prefix (whole bitmap bytes
+			// set), then a few chunks completed out of order, now and then a hole in the prefix
+			pre := uint32(rng.Intn(int(total) + 1))
+			bm := uint32(1)<<pre - 1
+			for k := pre; k < total; k++ {
+				if rng.Intn(4) == 0 {
+					bm |= 1 << k
+				}
+			}
+			for holes := rng.Intn(3); holes > 0 && pre > 0; holes-- {
+				bm &^= 1 << uint32(rng.Intn(int(pre)))
+			}
+			if rng.Intn(3) == 0 && total > 9 {
+				bm |= 0xff // first byte full, whatever follows
+			}
+			c.bitmap = bm & (1<<total - 1)
 		}
 		c.force = uint32(rng.Intn(int(total) + 1))
 		if c.hasPlan && rng.Bool() {
